@@ -5,7 +5,7 @@ import copy
 from ..core import sym
 from ..core.expand import u, call_name, get_arg, bind_args, Expander, is_marker, mk
 from ..core.loader import Inconclusive, const_value
-from .common import returns, all_nodes, callee, strip_shape, result_fields, calls_in, compare_nf, opaque_in
+from .common import returns, all_nodes, callee, strip_shape, result_fields, calls_in, compare_nf, opaque_in, kw, guards_of
 
 EXPLANATION = (
     "Decided: D1 definedness - every name and every numpy/scipy attribute used on the paths of paired_t_test, w_test "
@@ -431,4 +431,55 @@ def rule_precision(ck):
     rule_double_precision(ck, 'C08-D4.double', modules=('csep.core.poisson_evaluations', 'csep.core.binomial_evaluations', 'csep.core.forecasts'), what='per-event rates and forecast totals')
 
 
-RULES = [rule_t, rule_binary_t, rule_w, rule_public_t, rule_public_binary, rule_public_w, rule_rates_source, rule_totals_fresh, rule_precision]
+def rule_defined(ck):
+    """C08-D5.defined: the kernels return a result for every admissible sample (two events for the T-test, one non-null difference for the
+    W-test): no minimum / maximum / arg-extremum is taken of an array that is *shorter* than the sample - a difference of neighbours
+    (numpy.diff), a masked or sliced part - without an `initial=` or a test of its size; numpy raises for the empty case"""
+    P = ck.prog
+    ck.clause('D5')
+    REDUCE = ('min', 'max', 'argmin', 'argmax', 'amin', 'amax', 'nanmin', 'nanmax')
+    n = 0
+    for q in (WK, TK, BK):
+        f = P.func(q)
+        ex = Expander(P, f)
+        for c in all_nodes(f):
+            if not isinstance(c, ast.Call):
+                continue
+            nm = c.func.attr if isinstance(c.func, ast.Attribute) else (c.func.id if isinstance(c.func, ast.Name) else '')
+            if nm not in REDUCE:
+                continue
+            if isinstance(c.func, ast.Attribute) and u(c.func.value) not in ('numpy', 'np'):
+                arg = c.func.value
+            elif c.args and not (isinstance(c.func, ast.Name) and len(c.args) > 1):
+                arg = c.args[0]
+            else:
+                continue
+            try:
+                e = ex.expand(arg)
+            except Inconclusive:
+                e = arg
+            shorter = [x for x in ast.walk(e) if (isinstance(x, ast.Call) and (call_name(x) or '').endswith('diff'))
+                       or (isinstance(x, ast.Subscript) and (isinstance(x.slice, (ast.Compare, ast.Slice))
+                                                             or any(isinstance(y, ast.Compare) for y in ast.walk(x.slice))))]
+            if not shorter:
+                continue
+            n += 1
+            o = ck.ob('C08-D5.defined', f, c, c)
+            if kw(c, 'initial') is not None:
+                o.ok('has an initial value')
+                continue
+            guarded = any(any(w in u(t) for w in ('len(', '.size', 'shape[0]', 'count')) for t, pol in guards_of(c, f.node))
+            # `size > 1 and v.min() == 0`: the earlier operands of an `and` guard the later ones
+            cur = c
+            while getattr(cur, '_parent', None) is not None and not isinstance(cur, ast.stmt):
+                up = cur._parent
+                if isinstance(up, ast.BoolOp) and isinstance(up.op, ast.And) and cur in up.values:
+                    guarded = guarded or any(any(w in u(t) for w in ('len(', '.size', 'shape[0]', 'count')) for t in up.values[:up.values.index(cur)])
+                cur = up
+            (o.ok('guarded by a test of the size') if guarded else
+             o.fail('`%s` takes an extremum of `%s`, which is empty for the smallest admissible sample: ValueError (zero-size array to reduction '
+                    'operation) instead of a result' % (u(c)[:60], u(shorter[0])[:50])))
+    ck.extra['extremum_reductions_of_shortened_arrays'] = n
+
+
+RULES = [rule_t, rule_binary_t, rule_w, rule_public_t, rule_public_binary, rule_public_w, rule_rates_source, rule_totals_fresh, rule_precision, rule_defined]
